@@ -42,7 +42,7 @@ theorem readQueue_succ (inj : BSt → Nat → BSt) (tsNow : Option Nat) (i fuel 
        | [] => fin (readPrepSt s i)
        | st :: rest =>
          if tsStop tsNow st then fin (readPrepSt s i) else
-         let s4 := inj (readOneSt s i st rest) 3
+         let s4 := inj (fmtNote (readOneSt s i st rest) st) 3
          if total + st.size < s4.cfg.qcap ∧ (s4.th i).buf.length < s4.cfg.hard
          then readQueue inj tsNow i fuel (total + st.size) s4 else commitSt s4 i) := by
   rw [readQueue]
@@ -133,6 +133,7 @@ theorem ErasedNow.mono {s0 a b : BSt} {g : Nat} (h : ErasedNow s0 a g) (hab : Lg
 structure ClosedB (P : BSt → Prop) : Prop where
   siteCnt : ∀ s x, P s → P { s with siteCnt := x }
   emitInj : ∀ s a b c d, P s → P (s.emit (.inj a b c d))
+  note : ∀ s, P s → P (s.emit (.notify "n:fmterr"))
   clock : ∀ s n, P s → P { s with now := n }
   lastFlush : ∀ s n, P s → P { s with lastFlush := n }
   gone : ∀ s, P s → P { s with backendGone := true }
@@ -157,6 +158,12 @@ structure ClosedB (P : BSt → Prop) : Prop where
   report : ∀ s i, P s → (s.th i).fail > 0 → P (reportSt s i)
   pop : ∀ s i st rest, P s → lowest s = some i → (s.th i).buf = st :: rest → P (popSt s i st rest)
   raise : ∀ s f, P s → (∃ st, s.popLog.head? = some st ∧ st.kind = .flush f) → P (raiseSt s f)
+
+theorem ClosedB.fmtNote {P : BSt → Prop} (hc : ClosedB P) (s : BSt) (st : Stmt) (h : P s) : P (fmtNote s st) := by
+  unfold Backend.fmtNote
+  split
+  · exact hc.note s h
+  · exact h
 
 /-- … and, for schedules with frontend operations, under every frontend operation -/
 structure Closed (P : BSt → Prop) : Prop extends ClosedB P where
@@ -665,8 +672,8 @@ theorem readQueue_ok {inj : BSt → Nat → BSt} (hi : InjOK P inj) (tsNow : Opt
       · rename_i st rest hq
         split
         · exact hfin
-        · have h3 : P (inj (readOneSt s i st rest) 3) :=
-            (hi _ 3 (hc.readOne s i st rest hs (by simpa using hr) hq)).1
+        · have h3 : P (inj (fmtNote (readOneSt s i st rest) st) 3) :=
+            (hi _ 3 (hc.fmtNote _ st (hc.readOne s i st rest hs (by simpa using hr) hq))).1
           split
           · exact readQueue_ok hi tsNow i fuel _ _ h3
           · exact hc.commit _ _ h3
